@@ -9,9 +9,15 @@ from ..binary import Binary
 def tpm_pkgs_from_pcap_file(file):
     pcapng = dpkt.pcapng.Reader(file)
 
+    # try different parsers (eth packages went over 127.0.0.1, ip packages are from tpm2-tss tcti-pcap)
+    parsers = (dpkt.ip.IP, dpkt.ethernet.Ethernet)
+    if pcapng.datalink() == dpkt.pcap.DLT_EN10MB:
+        # the capture says it holds ethernet frames: an ethernet frame can look like a valid ip packet
+        # (depending on the destination mac address)
+        parsers = (dpkt.ethernet.Ethernet,)
+
     for ts, pkg_bytes in pcapng:
-        # try different parsers (eth packages went over 127.0.0.1, ip packages are from tpm2-tss tcti-pcap)
-        for parser in (dpkt.ip.IP, dpkt.ethernet.Ethernet):
+        for parser in parsers:
             try:
                 pkg = parser(pkg_bytes)
                 break
